@@ -104,6 +104,11 @@ func Try(a app.App, ctx app.IOContext) (err error) {
 		parentScope.DoneTask()
 		return err
 	}
+	// The terminal starts closing parentScope as soon as this command returns (Close waits for
+	// the goroutine below), and a scope that is being closed panics in its AppendError. The
+	// errors of the goroutine therefore go to the context scope behind parentScope, which is
+	// what Close reports once the goroutine is done.
+	appendError := parentScope.BaseContextScope().AppendError
 	go func() {
 		var catchErr error
 		defer parentScope.DoneTask()
@@ -125,7 +130,7 @@ func Try(a app.App, ctx app.IOContext) (err error) {
 				Lock:        nil,    // lock is unsupported
 				Wait:        nil,    // wait is unsupported
 			}); err != nil {
-				parentScope.AppendError(err)
+				appendError(err)
 				return
 			}
 		}
@@ -146,7 +151,7 @@ func Try(a app.App, ctx app.IOContext) (err error) {
 				Lock:        nil,    // lock is unsupported
 				Wait:        nil,    // wait is unsupported
 			}); err != nil {
-				parentScope.AppendError(err)
+				appendError(err)
 				return
 			}
 		}
@@ -167,7 +172,7 @@ func Try(a app.App, ctx app.IOContext) (err error) {
 				Lock:        nil,    // lock is unsupported
 				Wait:        nil,    // wait is unsupported
 			}); err != nil {
-				parentScope.AppendError(err)
+				appendError(err)
 				return
 			}
 		}
